@@ -25,6 +25,7 @@ CONSTANTS Rogue,        \* clients that may close / shut down at any time
           LimitN,       \* payload limit
           HasKill,      \* a kill switch is registered
           AllowKill, AllowFlush,
+          AllowFds,     \* TRUE: any chunk a client sends may carry one descriptor (SCM_RIGHTS)
           AtomicPoll    \* TRUE: clients do not move while a requests() call is in progress
 
 VARIABLES S,       \* the state record of HttpServer
@@ -68,7 +69,8 @@ Connect(c) == /\ ClientsMayMove /\ S.cl[c].st = "idle"
 
 Send(c) == /\ ClientsMayMove /\ S.cl[c].st = "open" /\ ~S.cl[c].wr /\ ~S.cl[c].srvClosed
            /\ todo[c] # <<>>
-           /\ S' = CSend(S, c, Head(todo[c]))
+           /\ \E withfd \in (IF AllowFds THEN {FALSE, TRUE} ELSE {FALSE}) :
+                 S' = CSendFds(S, c, Head(todo[c]), IF withfd THEN <<FdBase * c + Len(todo[c])>> ELSE <<>>)
            /\ todo' = [todo EXCEPT ![c] = Tail(@)]
            /\ UNCHANGED <<mode, batch, kAtStart>>
 
@@ -168,6 +170,9 @@ TokensOK == TokenOK(S) /\ (S.res = "shutdown" \/ InflOK(S))
 \* C08
 InterestsOK == InterestOK(S)
 
+\* C12 (server level): descriptors are conserved, never duplicated, and stay with the client that sent them
+FilesOK == FilesOwnedOK(S) /\ FilesOnceOK(S)
+
 \* C08: work the server could do shows as readiness (no stall)
 NoStall ==
     mode = "app" =>
@@ -219,7 +224,8 @@ WitnessServed == <>[]WitnessRest
 -----------------------------------------------------------------------------
 WitnessNames == <<"two_event_batch", "refused", "fd_reused", "swept_after_respond", "closed_with_inflight",
                   "interim_sent", "error_400", "partial_write", "hup_mid_poll", "kill_returned", "flush_used",
-                  "respond_on_closed", "epipe", "discard_on_error", "pipelined_yield", "size_limit_400">>
+                  "respond_on_closed", "epipe", "discard_on_error", "pipelined_yield", "size_limit_400",
+                  "files_yielded", "files_on_closed_conn", "files_glued_read">>
 ASSUME \A i \in 1..Len(WitnessNames) : TLCSet(i, FALSE)
 Witness(i, cond) == IF cond /\ ~TLCGet(i) THEN TLCSet(i, TRUE) /\ PrintT(<<"WITNESS", WitnessNames[i]>>) ELSE TRUE
 Witnesses ==
@@ -239,5 +245,8 @@ Witnesses ==
     /\ Witness(14, \E c \in Clients : todo[c] = <<>> /\ Contains(S.s2c[c], <<52, 48, 48, 32>>) /\ S.outst = {} /\ mode = "app")
     /\ Witness(15, Len(S.acc) >= 2)
     /\ Witness(16, \E c \in Clients : Contains(S.s2c[c], L_D_SIZE_A))
+    /\ Witness(17, \E t \in S.outst : t.files # <<>>)
+    /\ Witness(18, \E f \in Open(S) : S.srv[f].st = "Closed" /\ S.srv[f].http.files # <<>>)
+    /\ Witness(19, \E c \in Clients : S.c2sfd[c] # <<>> /\ Head(S.c2sfd[c]).s > 0)
 
 =============================================================================
